@@ -717,14 +717,16 @@ impl<T: Eq + Hash + Clone> AutomatonBuilder<T> {
         let mut num_final_states = 0;
         let mut state_array = Vec::with_capacity(n);
         for (i, s) in self.states.iter_mut().enumerate() {
-            s.cleanup();
-            let p = s.make_partition()?;
-            if s.default_successor.is_some() && p.empty_complement() {
+            // check the transitions as given, before cleanup drops or reroutes any of them
+            let given = s.make_partition()?;
+            if s.default_successor.is_some() && given.empty_complement() {
                 return Err(Error::EmptyComplementaryClass);
             }
-            if s.default_successor.is_none() && !p.empty_complement() {
+            if s.default_successor.is_none() && !given.empty_complement() {
                 return Err(Error::MissingDefaultSuccessor);
             }
+            s.cleanup();
+            let p = s.make_partition()?;
             let successor = s.make_successor(&p);
             if s.is_final {
                 num_final_states += 1;
